@@ -27,6 +27,8 @@ From ClapModel Require Import Parse.Cmd Parse.Build Parse.Valid Complete.EngineM
 From ClapModel Require Import Complete.EngineAccept Complete.EngineFuel Complete.EngineComplete Complete.EngineLevel.
 From ClapModel Require ParseProofs.Chain ParseProofs.ActionsTop.
 From ClapModel Require Import Complete.EngineLine Complete.EnginePositional.
+From ClapModel Require ParseProofs.ChainWide.
+From ClapModel Require Import Complete.EngineWide.
 From ClapModel Require Gen.EngineSites.
 From Coq Require Import ZArith.
 Open Scope N_scope.
@@ -562,3 +564,72 @@ Theorem C18_escape_only_positionals_refuted :
   Esc.has_cand (dd ++ Esc.w_opt) (complete_model [] Esc.c0 [[112]; dd; [97]; []] 3) = true.
 Proof. exact escape_offers_options. Qed.
 Print Assumptions C18_escape_only_positionals_refuted.
+
+(** * Round 4: lines with POSITIONAL values; [args_conflicts_with_subcommands] (Complete/EngineWide.v)
+
+    [body18 pc pre F pst pos est]: [pre] are the arguments of one level - options and values of single-valued
+    positionals ([ChainWide.pitems], the counter starts at 1), optionally followed by [k] values of a multi-valued
+    positional [a] ([ChainWide.multi_vals], [k] below the engine's [eng_num_args a]); [F] is the parser's state
+    transformer, [pst]/[pos] the parser's loop state and positional counter behind them, [est] the engine's state:
+    [ValueDone] resp. [Pos pos k].  [pline pc line pcf posf vf]: `body_0 n_1 body_1 ... n_k pre_k`, every [n_i] a
+    subcommand name/alias read where the parser looks for one ([may_select]: between arguments, or behind the values
+    of a multi-valued positional if THE LEVEL REACHED sets [subcommand_precedence_over_arg]); a level with
+    [args_conflicts_with_subcommands] is left only before any of its own arguments; [posf]/[vf]: the parser's
+    positional counter and "an argument was seen" flag at the final level [pcf]. *)
+
+(** the engine's positional lookup IS the parser's key-map lookup *)
+Theorem C18_find_pos_is_get_pos : forall c n, assert_app c = true -> find_pos c n = get_pos c n.
+Proof. exact find_pos_get_pos. Qed.
+Print Assumptions C18_find_pos_is_get_pos.
+
+(** STATE AND POS_INDEX AGREEMENT on one level: behind the arguments of a level the engine stands in [est] at
+    [pos_index = pos] where the parser's token loop stands in [pst] at the positional counter [pos];
+    [ValueDone]/[PSValuesDone], or [Pos pos k]/[PSPos (a_id a)] for the same positional [a] *)
+Theorem C18_state_agreement_positionals : forall pc cur pre F pst pos est, elevel pc cur -> body18 pc pre F pst pos est ->
+  shadow_run pre cur 1 false ValueDone = SNext cur pos false est /\
+  (forall rest vaf st, fs_skip st = 0 ->
+     parse_loop pc (pre ++ rest) (Chain.lsV 1 vaf) st =
+     (do st' <- F st; parse_loop pc rest (mkL pst pos (vaf || negb (is_nil pre)) false) st')) /\
+  match est with
+  | ValueDone => pst = PSValuesDone
+  | Pos i k => i = pos /\ exists a, pst = PSPos (a_id a) /\ find_pos cur pos = Some a /\ get_pos pc pos = Some a /\
+                 a_is_multiple a = true /\ k < eng_num_args a
+  | Opt _ _ => False
+  end.
+Proof. exact state_agreement_positionals. Qed.
+Print Assumptions C18_state_agreement_positionals.
+
+(** whole lines, engine side: [ValueDone], before `--`, at a level related to the parser's final level, and the
+    engine's [pos_index] IS the parser's positional counter [posf] *)
+Theorem C18_shadow_pline : forall c0 bin line w after pcf posf vf f b,
+  tree_all unb c0 -> is_set s_no_binary_name c0 = false -> N.of_nat (length line) + 2 <= usize_max ->
+  build_full f c0 = BOk b -> pline (build_self (ActionsTop.with_bin c0 bin)) line pcf posf vf ->
+  exists curf, start_walk b (bin :: line ++ w :: after) (N.of_nat (S (length line))) = WAt w curf posf ValueDone false
+               /\ lvl_rel pcf curf.
+Proof. exact shadow_pline. Qed.
+Print Assumptions C18_shadow_pline.
+
+(** END TO END for lines with positional values: every option / subcommand candidate of the class, put in place of the
+    word, gives a line that [parse_top] does not reject with UnknownArgument / InvalidSubcommand.  A subcommand
+    candidate is in the class only where the parser still looks for subcommands ([cand_classw]: the final level
+    does not set [args_conflicts_with_subcommands], or [vf = false]) *)
+Theorem C18_candidate_accepted_pline : forall tbl c0 bin line w after l cd pcf posf vf e,
+  tree_all unb c0 -> is_set s_no_binary_name c0 = false ->
+  N.of_nat (length line) + 2 <= usize_max ->
+  pline (build_self (ActionsTop.with_bin c0 bin)) line pcf posf vf ->
+  complete_model tbl c0 (bin :: line ++ w :: after) (N.of_nat (S (length line))) = COk l ->
+  In cd l -> cand_classw pcf posf vf w cd ->
+  parse_top c0 (bin :: line ++ [cd_value cd]) = OErr e -> ~ unknown_kind (e_kind e).
+Proof. exact candidate_accepted_pline. Qed.
+Print Assumptions C18_candidate_accepted_pline.
+
+(** the round-3 class [cline] is a special case (counter 1 at the end, no [args_conflicts_with_subcommands]) *)
+Theorem C18_cline_is_pline : forall pc line pcf, cline pc line pcf -> exists vf, pline pc line pcf 1 vf.
+Proof. exact cline_pline. Qed.
+Print Assumptions C18_cline_is_pline.
+
+Theorem C18_wide_classes_decidable :
+  (forall pc, lvlw_b pc = true -> lvlw pc) /\
+  (forall pcf posf vf w cd, cand_classw_b pcf posf vf w cd = true -> cand_classw pcf posf vf w cd).
+Proof. exact wide_classes_decidable. Qed.
+Print Assumptions C18_wide_classes_decidable.
